@@ -280,6 +280,34 @@ func tEq(a, b *Term) *Term {
 		return newTerm("fp.eq", SBool, a, b)
 	}
 	if a.Sort == SStr {
+		if hasStructure(a) && hasStructure(b) && !a.IsConst() && !b.IsConst() {
+			pa, pb := strPartsOf(a), strPartsOf(b)
+			if len(pa) == 1 && len(pb) == 1 && pa[0].v == nil && pb[0].v == nil {
+				// two fixed-length character sequences: compare position by position
+				if len(pa[0].atoms) != len(pb[0].atoms) {
+					return tFalse
+				}
+				r := tTrue
+				for i := range pa[0].atoms {
+					x, y := pa[0].atoms[i], pb[0].atoms[i]
+					switch {
+					case x.code == nil && y.code == nil:
+						r = tAnd(r, mkBool(x.c == y.c))
+					case x.code == nil:
+						r = tAnd(r, atomEq(y, x.c))
+					case y.code == nil:
+						r = tAnd(r, atomEq(x, y.c))
+					default:
+						if x.code.Op == "bv2nat" && y.code.Op == "bv2nat" && x.code.Args[0].Sort == y.code.Args[0].Sort {
+							r = tAnd(r, tEq(x.code.Args[0], y.code.Args[0]))
+						} else {
+							r = tAnd(r, tEq(x.code, y.code))
+						}
+					}
+				}
+				return r
+			}
+		}
 		if c, ok := b.StrVal(); ok && hasStructure(a) {
 			return eqParts(strPartsOf(a), c)
 		}
@@ -656,6 +684,18 @@ func tStrConcat(a, b *Term) *Term {
 func tStrLen(a *Term) *Term { // Int-sorted
 	if x, ok := a.StrVal(); ok {
 		return mkInt(int64(len(x)))
+	}
+	if hasStructure(a) {
+		// sum the fixed-length pieces
+		var total *Term = mkInt(0)
+		for _, p := range strPartsOf(a) {
+			if p.v == nil {
+				total = tIntAdd(total, mkInt(int64(len(p.atoms))))
+			} else {
+				total = tIntAdd(total, newTerm("str.len", SInt, p.v))
+			}
+		}
+		return total
 	}
 	return newTerm("str.len", SInt, a)
 }
